@@ -312,7 +312,7 @@ def run(ctx):
         for fam in ("opt", "ref"):
             for lo in range(nfe):
                 tasks.append(("fe", {"cfg": cfg, "fam": fam, "lo": lo, "step": nfe,
-                                     "thin": 2 if ctx.quick else 1}))
+                                     "thin": 4 if ctx.quick else 1}))
         bounds[cfg] = {"ref_vs_opt_pairs": len(prs) + 2, "split_multisets": len(ms),
                        "fe_elements": 13 if ctx.quick else 33}
     # tiny: whole order-13 group
@@ -328,7 +328,7 @@ def run(ctx):
     bounds["BLS-T1-13"] = {"ref_vs_opt": "all 196 (a,b) in [0,13]^2", "split": "all %d multisets of size <= 2 over %d pairs" % (len(ms), len(sub))}
     for cfg in ("BN-T", "BLS-T2", "BLS-T1-6037"):
         S = PL.get(cfg)
-        n = 160 if ctx.quick else 3000
+        n = (160 if cfg != "BLS-T1-6037" else 110) if ctx.quick else 3000
         gg = ctx.rng("tinypairs:" + cfg)
         small = [(a, b) for a in range(0, 10) for b in range(0, 10)]
         rest = [(gg.randrange(S.r), gg.randrange(S.r)) for _ in range(n - 100 - 4)]
